@@ -84,7 +84,7 @@ cascade_arm!(c01_sibling_only, [S, U], [S]);
 /// @harness id=c01_other_module_and_unimported props=C01 unwind=17 mem=6 cap=600
 /// another test module T2 and an un-imported module M define f (no conftest on the path): nothing visible.
 cascade_arm!(c01_other_module_and_unimported, [T2, M, U], [T2, M]);
-/// @harness id=c01_import_vs_sibling props=C01,C08 unwind=17 mem=6 cap=600
+/// @harness id=c01_import_vs_sibling props=C01,C08,C12 unwind=17 mem=6 cap=600
 /// S registered first, M second, C1 present and (symbolically) importing M: imported => M's, else none.
 cascade_arm!(c01_import_vs_sibling, [S, M, C1, U], [S, M]);
 /// @harness id=c01_import_m_first props=C01,C08 unwind=17 mem=6 cap=600
@@ -148,89 +148,86 @@ fn usage_world() -> World {
     w.with_text = true;
     w
 }
-/// One usage line of the usage world; the cursor column is chosen by a symbolic selector from a list of
-/// concrete columns (line start, both sides of each token boundary, every column inside the token, line
-/// end and beyond) — each column is its own call site because a symbolic column makes the extracted word a
-/// symbolic-length string, which CBMC could not finish (see DESIGN §0). Inside the recorded token =>
-/// C0's definition, outside => None.
-pub fn usage_cols(line1: usize, s: usize, e: usize, cols: &[u32; 3]) {
+/// One position query per harness (a single concrete `find_fixture_definition` costs ~150 s of symbolic
+/// execution, see DESIGN §0): the cursor sits on a concrete column of usage line `line1`; what is symbolic is the
+/// RECORDED span (s, e) of the usage on that line — any 0 <= s <= e <= 64 — so the solver decides
+/// "cursor inside the recorded span <=> resolves to C0's definition" for every span position relative to the cursor.
+pub fn usage_at(line1: usize, tok_start: usize, col: u32) {
     let w = usage_world();
     let db = build(&w, WITH_USAGES);
-    let k: u8 = any();
-    assume((k as usize) < cols.len());
-    macro_rules! at { ($i:expr) => {{
-        let col = cols[$i];
-        note!("find_fixture_definition(U, line0={}, col={}) text line={:?}", line1 - 1, col, file_text(&w, U).lines().nth(line1 - 1));
-        let got = db.find_fixture_definition(Path::new(path(U)), (line1 - 1) as u32, col);
-        let inside = (col as usize) >= s && (col as usize) < e;
-        check!("c01.cols.inside_resolves", !inside || got.as_ref().map(|d| d.line) == Some(4));
-        check!("c01.cols.outside_none", inside || got.is_none());
-        let nm = db.find_fixture_at_position(Path::new(path(U)), (line1 - 1) as u32, col);
-        check!("c01.cols.name_inside", !inside || nm.as_deref() == Some("fx1"));
-        check!("c01.cols.name_outside", inside || nm.is_none());
-        std::mem::forget(got); std::mem::forget(nm);
-    }}; }
-    match k { 0 => at!(0), 1 => at!(1), _ => at!(2) }
-    reach!("c01.cols.end");
-    std::mem::forget(db); std::mem::forget(w);
+    let s: usize = any(); let e: usize = any();
+    assume(s <= e && e <= 64);
+    // overwrite the recorded span of the usage on this line (the analyzer's value is tok_start..tok_start+3; gate `worlds`)
+    {
+        let mut us = db.usages.get_mut(Path::new(path(U))).unwrap();
+        for u in us.iter_mut() { if u.line == line1 { u.start_char = s; u.end_char = e; } }
+    }
+    note!("find_fixture_definition(U, line0={}, col={}) recorded span {}..{} (analyzer: {}..{}) text line={:?}", line1 - 1, col, s, e, tok_start, tok_start + 3, file_text(&w, U).lines().nth(line1 - 1));
+    let got = db.find_fixture_definition(Path::new(path(U)), (line1 - 1) as u32, col);
+    let on_token = (col as usize) >= tok_start && (col as usize) < tok_start + 3; // the word under the cursor is the name
+    let inside = (col as usize) >= s && (col as usize) < e;
+    check!("c01.pos.inside_span_resolves", !(inside && on_token) || got.as_ref().map(|d| d.line) == Some(4));
+    check!("c01.pos.outside_span_none", (inside && on_token) || got.is_none());
+    reach!("c01.pos.end");
+    std::mem::forget(got); std::mem::forget(db); std::mem::forget(w);
 }
 macro_rules! usage_arm {
-    ($id:ident, $line:expr, $s:expr, $cols:expr) => {
+    ($id:ident, $line:expr, $s:expr, $dcol:expr) => {
         #[cfg_attr(kani, kani::proof)]
         #[cfg_attr(kani, kani::stub(std::path::Path::exists, crate::stubs::path_exists_false))]
         #[cfg_attr(kani, kani::stub(crate::fixtures::FixtureDatabase::is_fixture_imported_in_file, crate::world::stub_is_imported))]
         #[cfg_attr(kani, kani::stub(core::unicode::unicode_data::alphabetic::lookup, crate::stubs::uni_alphabetic))]
         #[cfg_attr(kani, kani::stub(core::unicode::unicode_data::n::lookup, crate::stubs::uni_numeric))]
         #[cfg_attr(kani, kani::stub(core::slice::memchr::memchr, crate::stubs::memchr_bytewise))]
-        pub fn $id() { let s: usize = $s; let d: [i64; 3] = $cols; usage_cols($line, s, s + 3, &[(s as i64 + d[0]) as u32, (s as i64 + d[1]) as u32, (s as i64 + d[2]) as u32]) }
+        pub fn $id() { let s: usize = $s; usage_at($line, s, (s as i64 + $dcol) as u32) }
     };
 }
 /// @harness id=c01_use_pytestmark props=C01 unwind=60 mem=8 cap=900 gates=worlds
-/// `pytestmark = pytest.mark.usefixtures("fx1")` (line 2): cursor one column before the token, inside it, and one past its end (symbolic selector, 3 call sites).
-usage_arm!(c01_use_pytestmark, 2, PYTESTMARK_COL, [-1, 1, 3]);
-/// @harness id=c01_use_pytestmark_edges props=C01 tier=thorough unwind=60 mem=10 cap=1500 gates=worlds
-/// `pytestmark = pytest.mark.usefixtures("fx1")` (line 2): first and last column of the token and column 0.
-usage_arm!(c01_use_pytestmark_edges, 2, PYTESTMARK_COL, [0, 2, -(PYTESTMARK_COL as i64)]);
-/// @harness id=c01_use_pytestmark_far props=C01 tier=thorough unwind=60 mem=10 cap=1500 gates=worlds
-/// `pytestmark = pytest.mark.usefixtures("fx1")` (line 2): two columns before, two past the end, far beyond the line.
-usage_arm!(c01_use_pytestmark_far, 2, PYTESTMARK_COL, [-2, 4, 150]);
+/// `pytestmark = pytest.mark.usefixtures("fx1")` (line 2): cursor on the middle character of the name, recorded span symbolic.
+usage_arm!(c01_use_pytestmark, 2, PYTESTMARK_COL, 1);
+/// @harness id=c01_use_pytestmark_before props=C01 tier=thorough unwind=60 mem=8 cap=900 gates=worlds
+/// `pytestmark = pytest.mark.usefixtures("fx1")` (line 2): cursor one column before the name (on the quote / parenthesis), recorded span symbolic.
+usage_arm!(c01_use_pytestmark_before, 2, PYTESTMARK_COL, -1);
+/// @harness id=c01_use_pytestmark_last props=C01 tier=thorough unwind=60 mem=8 cap=900 gates=worlds
+/// `pytestmark = pytest.mark.usefixtures("fx1")` (line 2): cursor on the last character of the name, recorded span symbolic.
+usage_arm!(c01_use_pytestmark_last, 2, PYTESTMARK_COL, 2);
 
 /// @harness id=c01_use_fixture_param props=C01 unwind=60 mem=8 cap=900 gates=worlds
-/// `def g(fx1): return 1` (line 4): fixture parameter: cursor one column before the token, inside it, and one past its end (symbolic selector, 3 call sites).
-usage_arm!(c01_use_fixture_param, 4, 6, [-1, 1, 3]);
-/// @harness id=c01_use_fixture_param_edges props=C01 tier=thorough unwind=60 mem=10 cap=1500 gates=worlds
-/// `def g(fx1): return 1` (line 4): fixture parameter: first and last column of the token and column 0.
-usage_arm!(c01_use_fixture_param_edges, 4, 6, [0, 2, -(6 as i64)]);
-/// @harness id=c01_use_fixture_param_far props=C01 tier=thorough unwind=60 mem=10 cap=1500 gates=worlds
-/// `def g(fx1): return 1` (line 4): fixture parameter: two columns before, two past the end, far beyond the line.
-usage_arm!(c01_use_fixture_param_far, 4, 6, [-2, 4, 150]);
+/// `def g(fx1): return 1` (line 4): fixture parameter: cursor on the middle character of the name, recorded span symbolic.
+usage_arm!(c01_use_fixture_param, 4, 6, 1);
+/// @harness id=c01_use_fixture_param_before props=C01 tier=thorough unwind=60 mem=8 cap=900 gates=worlds
+/// `def g(fx1): return 1` (line 4): fixture parameter: cursor one column before the name (on the quote / parenthesis), recorded span symbolic.
+usage_arm!(c01_use_fixture_param_before, 4, 6, -1);
+/// @harness id=c01_use_fixture_param_last props=C01 tier=thorough unwind=60 mem=8 cap=900 gates=worlds
+/// `def g(fx1): return 1` (line 4): fixture parameter: cursor on the last character of the name, recorded span symbolic.
+usage_arm!(c01_use_fixture_param_last, 4, 6, 2);
 
 /// @harness id=c01_use_usefixtures props=C01 unwind=60 mem=8 cap=900 gates=worlds
-/// `@pytest.mark.usefixtures("fx1")` (line 6): cursor one column before the token, inside it, and one past its end (symbolic selector, 3 call sites).
-usage_arm!(c01_use_usefixtures, 6, USEFIX_COL, [-1, 1, 3]);
-/// @harness id=c01_use_usefixtures_edges props=C01 tier=thorough unwind=60 mem=10 cap=1500 gates=worlds
-/// `@pytest.mark.usefixtures("fx1")` (line 6): first and last column of the token and column 0.
-usage_arm!(c01_use_usefixtures_edges, 6, USEFIX_COL, [0, 2, -(USEFIX_COL as i64)]);
-/// @harness id=c01_use_usefixtures_far props=C01 tier=thorough unwind=60 mem=10 cap=1500 gates=worlds
-/// `@pytest.mark.usefixtures("fx1")` (line 6): two columns before, two past the end, far beyond the line.
-usage_arm!(c01_use_usefixtures_far, 6, USEFIX_COL, [-2, 4, 150]);
+/// `@pytest.mark.usefixtures("fx1")` (line 6): cursor on the middle character of the name, recorded span symbolic.
+usage_arm!(c01_use_usefixtures, 6, USEFIX_COL, 1);
+/// @harness id=c01_use_usefixtures_before props=C01 tier=thorough unwind=60 mem=8 cap=900 gates=worlds
+/// `@pytest.mark.usefixtures("fx1")` (line 6): cursor one column before the name (on the quote / parenthesis), recorded span symbolic.
+usage_arm!(c01_use_usefixtures_before, 6, USEFIX_COL, -1);
+/// @harness id=c01_use_usefixtures_last props=C01 tier=thorough unwind=60 mem=8 cap=900 gates=worlds
+/// `@pytest.mark.usefixtures("fx1")` (line 6): cursor on the last character of the name, recorded span symbolic.
+usage_arm!(c01_use_usefixtures_last, 6, USEFIX_COL, 2);
 
 /// @harness id=c01_use_indirect props=C01 unwind=60 mem=8 cap=900 gates=worlds
-/// `@pytest.mark.parametrize("fx1", [1], indirect=True)` (line 7): cursor one column before the token, inside it, and one past its end (symbolic selector, 3 call sites).
-usage_arm!(c01_use_indirect, 7, USEFIX_COL, [-1, 1, 3]);
-/// @harness id=c01_use_indirect_edges props=C01 tier=thorough unwind=60 mem=10 cap=1500 gates=worlds
-/// `@pytest.mark.parametrize("fx1", [1], indirect=True)` (line 7): first and last column of the token and column 0.
-usage_arm!(c01_use_indirect_edges, 7, USEFIX_COL, [0, 2, -(USEFIX_COL as i64)]);
-/// @harness id=c01_use_indirect_far props=C01 tier=thorough unwind=60 mem=10 cap=1500 gates=worlds
-/// `@pytest.mark.parametrize("fx1", [1], indirect=True)` (line 7): two columns before, two past the end, far beyond the line.
-usage_arm!(c01_use_indirect_far, 7, USEFIX_COL, [-2, 4, 150]);
+/// `@pytest.mark.parametrize("fx1", [1], indirect=True)` (line 7): cursor on the middle character of the name, recorded span symbolic.
+usage_arm!(c01_use_indirect, 7, USEFIX_COL, 1);
+/// @harness id=c01_use_indirect_before props=C01 tier=thorough unwind=60 mem=8 cap=900 gates=worlds
+/// `@pytest.mark.parametrize("fx1", [1], indirect=True)` (line 7): cursor one column before the name (on the quote / parenthesis), recorded span symbolic.
+usage_arm!(c01_use_indirect_before, 7, USEFIX_COL, -1);
+/// @harness id=c01_use_indirect_last props=C01 tier=thorough unwind=60 mem=8 cap=900 gates=worlds
+/// `@pytest.mark.parametrize("fx1", [1], indirect=True)` (line 7): cursor on the last character of the name, recorded span symbolic.
+usage_arm!(c01_use_indirect_last, 7, USEFIX_COL, 2);
 
 /// @harness id=c01_use_test_param props=C01 unwind=60 mem=8 cap=900 gates=worlds
-/// `def test_x(fx1): pass` (line 8): test parameter: cursor one column before the token, inside it, and one past its end (symbolic selector, 3 call sites).
-usage_arm!(c01_use_test_param, 8, 11, [-1, 1, 3]);
-/// @harness id=c01_use_test_param_edges props=C01 tier=thorough unwind=60 mem=10 cap=1500 gates=worlds
-/// `def test_x(fx1): pass` (line 8): test parameter: first and last column of the token and column 0.
-usage_arm!(c01_use_test_param_edges, 8, 11, [0, 2, -(11 as i64)]);
-/// @harness id=c01_use_test_param_far props=C01 tier=thorough unwind=60 mem=10 cap=1500 gates=worlds
-/// `def test_x(fx1): pass` (line 8): test parameter: two columns before, two past the end, far beyond the line.
-usage_arm!(c01_use_test_param_far, 8, 11, [-2, 4, 150]);
+/// `def test_x(fx1): pass` (line 8): test parameter: cursor on the middle character of the name, recorded span symbolic.
+usage_arm!(c01_use_test_param, 8, 11, 1);
+/// @harness id=c01_use_test_param_before props=C01 tier=thorough unwind=60 mem=8 cap=900 gates=worlds
+/// `def test_x(fx1): pass` (line 8): test parameter: cursor one column before the name (on the quote / parenthesis), recorded span symbolic.
+usage_arm!(c01_use_test_param_before, 8, 11, -1);
+/// @harness id=c01_use_test_param_last props=C01 tier=thorough unwind=60 mem=8 cap=900 gates=worlds
+/// `def test_x(fx1): pass` (line 8): test parameter: cursor on the last character of the name, recorded span symbolic.
+usage_arm!(c01_use_test_param_last, 8, 11, 2);
